@@ -34,10 +34,14 @@ pub struct Case {
 }
 
 pub fn case_strategy(kind: LoggerKind) -> impl Strategy<Value = Case> {
+    // the inner strategies are built once (building them compiles regexes) and cloned per case
+    let st = step();
+    let (r4, r6) = (req(true), req(false));
+    let i4 = vec(prop_oneof![3 => st.clone().prop_map(Item::Step), 2 => r4.prop_map(Item::Req)], 1..=6).boxed();
+    let i6 = vec(prop_oneof![3 => st.prop_map(Item::Step), 2 => r6.prop_map(Item::Req)], 1..=6).boxed();
     scenario_quiet(Fam::Any).prop_flat_map(move |scn| {
-        let v4 = scn.net.is_v4();
-        let item = prop_oneof![3 => step().prop_map(Item::Step), 2 => req(v4).prop_map(Item::Req)];
-        (Just(scn), prop::bool::weighted(0.12), prop::bool::weighted(0.15), vec(item, 1..=6)).prop_map(move |(scn, deny_client, foreign_dst, items)| Case { scn, logger: kind, deny_client, foreign_dst, items })
+        let items = if scn.net.is_v4() { i4.clone() } else { i6.clone() };
+        (Just(scn), prop::bool::weighted(0.12), prop::bool::weighted(0.15), items).prop_map(move |(scn, deny_client, foreign_dst, items)| Case { scn, logger: kind, deny_client, foreign_dst, items })
     })
 }
 
@@ -427,7 +431,7 @@ impl Prop for C20 {
         "cases = configuration (MAC, self-IP list, deny list; client optionally put on the deny list; traffic optionally addressed outside the self-IP list) x 1..6 frames drawn from the hostile mixture of C01 (raw, unauthorised MAC, unknown EtherType, truncated / lying L3 and L4 headers, every ICMP type/code class, ARP operations, neighbour solicitations in and out of scope, TCP flag classes with accepted / rejected data, UDP with and without an application reply) and from the answerable requests of C03, processed in order by the real reply() with masscanned's own ConsoleLogger, its own LogfmtLogger (stdout captured through a memfd that replaces fd 1) and a structural recording logger. Oracle per frame: every line complete (console: column count per event type, non-empty timestamp, newline-terminated; logfmt: key=value tokens from the expected key set, required keys present, none twice); each layer that logged recv logs exactly one terminal later, terminals in reverse order of the recvs, no second recv; the last event is the Ethernet terminal and it is send iff a reply frame was returned; the layers that logged equal the layers the reference decoder says the frame reached (zero events for frames shorter than 14 bytes); every printed MAC / IP / port equals the frame's (the reply's source port is accepted on send lines for STUN change-port). Non-trivial = every logged frame; distinct by (layer path, fate, logger) and frame hash."
     }
     fn run(&self, ctx: &mut RunCtx) {
-        let n = ctx.share(ctx.tier.n(150_000, 3_000_000));
+        let n = ctx.share(ctx.tier.n(400_000, 4_000_000));
         ctx.run_generated("console", n, case_strategy(LoggerKind::Console), check);
         ctx.run_generated("logfmt", n, case_strategy(LoggerKind::Logfmt), check);
         ctx.run_generated("struct", n, case_strategy(LoggerKind::Struct), check);
